@@ -42,3 +42,5 @@ mk("C07-throw-inside-eval-code-loses-value", "C07.value", [[TRY(1, [NAT(2, "eval
 mk("C07-throw-in-callback-inside-eval-code", "C07.value", [[TRY(1, [NAT(2, "eval_forEach", [D(3, "null_prop")])], [P(5)], [P(6)])]], [0])
 mk("C07-typeof-name-inside-callback-host-typeerror", "C07.host",
    [[NAT(2, "forEach", [{"t": "expr", "k": 3, "src": "(typeof (undefined))"}]), P(4)]], [])
+KNAT = lambda k, kind, b, rv=0: {"t": "native", "k": k, "kind": kind, "rv": rv, "b": b, "kept": True}
+mk("C07-throw-through-kept-builtin-method-loses-value", "C07.value", [[TRY(1, [KNAT(2, "forEach", [D(3, "throw_obj")])], [P(5)])]], [0])
